@@ -3,12 +3,17 @@ namespace Sio.Client
 
 /-! ### CONNECT packets in a trace -/
 
-/-- namespace and payload of a CONNECT packet handed to the transport -/
-def connectOf : Out → Option (Option Ns × Option J)
-  | .send p => if p.type = CONNECT then some (p.nsp, p.data) else none
+/-- what `connect()` does towards the server: invoking the auth callable, handing over a CONNECT -/
+inductive ConnOut where
+  | auth
+  | pkt (nsp : Option Ns) (data : Option J)
+
+def connectOf : Out → Option ConnOut
+  | .send p => if p.type = CONNECT then some (.pkt p.nsp p.data) else none
+  | .authCall => some .auth
   | _ => none
 
-def connects (os : List Out) : List (Option Ns × Option J) := os.filterMap connectOf
+def connects (os : List Out) : List ConnOut := os.filterMap connectOf
 
 @[simp] theorem connects_nil : connects [] = [] := rfl
 @[simp] theorem connects_append (a b : List Out) : connects (a ++ b) = connects a ++ connects b := by
@@ -250,7 +255,7 @@ theorem deliverAll_window (cfg : Cfg) (es : List Ev) : ∀ (c : Cli), es.all Ev.
     in the trace is a CONNECT packet. -/
 theorem connects_connectLoop (cfg : Cfg) (auth : J) (nss : List Ns) : ∀ (c : Cli) (rs : List (List Ev)),
     quiet rs = true → c.connected = false → c.eio = .connected →
-    connects (connectLoop cfg auth c nss rs).2 = nss.map (fun n => (some n, some auth))
+    connects (connectLoop cfg auth c nss rs).2 = nss.map (fun n => ConnOut.pkt (some n) (some auth))
     ∧ (connectLoop cfg auth c nss rs).1.connected = false
     ∧ (connectLoop cfg auth c nss rs).1.eio = .connected := by
   induction nss with
